@@ -6,6 +6,7 @@ import (
 	"fmt"
 	"os"
 	"runtime"
+	"runtime/debug"
 	"strings"
 	"sync"
 	"time"
@@ -320,7 +321,14 @@ func RunBody(cs Case, opts ...fox.GlobalOption) (*fox.Router, hist.Model) {
 func runBodies(c *mc.Ctx, r *mc.Result, name string, p *hist.Pool, seedMax, bodyLen int) {
 	var mu sync.Mutex
 	ns, na, stopped := ForEachBody(c, name, p, seedMax, bodyLen, func(cs Case) {
-		class, msg := evalBody(p, cs)
+		class, msg := func() (class, msg string) {
+			defer func() {
+				if pv := recover(); pv != nil {
+					class, msg = "panic", fmt.Sprintf("panic while running or observing the transaction body: %v\n%s", pv, mc.NormStack(string(debug.Stack()), 12))
+				}
+			}()
+			return evalBody(p, cs)
+		}()
 		mu.Lock()
 		r.Evaluations++
 		r.Transitions += int64(len(cs.Body))
